@@ -14,7 +14,7 @@ Inductive op := OCreate | OMark (p : Z) | OCallback.
 Inductive case :=
 | CHist (selfref prebuild : bool) (cap : Z) (mask : Z) (ops : list op)
 (** a raw schedule of step labels (0 G_reserve, 1 G_drain_one, 2 G_drain_done, 3 G_push, 4 A_start,
-    5 A_remove, 6 A_add, 100 + p: G_mark p); observable: summary of the final state *)
+    5 A_remove, 6 A_add, 7 A_push, 100 + p: G_mark p); observable: summary of the final state *)
 | CSched (selfref prebuild : bool) (cap : Z) (labels : list Z).
 
 (** mask bits *)
@@ -33,7 +33,8 @@ Definition zn (n : nat) : Z := Z.of_nat n.
 Definition create_sched (s : state) : list label :=
   G_reserve :: repeat G_drain_one (length (st_unused s)) ++ [G_drain_done; G_push].
 Definition callback_sched (cf : cfg) (s : state) : list label :=
-  A_start :: repeat A_remove (S (if selfref cf then length (st_keys s) else length (aorder (st_ar s))))
+  A_start :: concat (repeat [A_remove; A_push]
+                             (S (if selfref cf then length (st_keys s) else length (aorder (st_ar s)))))
           ++ repeat A_add (S (length (st_newq s))).
 
 (** payloads destroyed between [s0] and [s1], oldest first *)
@@ -99,7 +100,7 @@ Fixpoint run_ops (cf : cfg) (mask : Z) (ops : list op) (s : state) : list Z :=
 Definition label_of_Z (z : Z) : label :=
   match z with
   | 0 => G_reserve | 1 => G_drain_one | 2 => G_drain_done | 3 => G_push
-  | 4 => A_start | 5 => A_remove | 6 => A_add
+  | 4 => A_start | 5 => A_remove | 6 => A_add | 7 => A_push
   | _ => G_mark (Z.to_nat (z - 100))
   end%Z.
 
@@ -109,6 +110,7 @@ Definition all_gameplay (s : state) : bool :=
 Definition summary (s : state) : list Z :=
   [zn (res_len s); zn (length (aorder (st_ar s))); zn (length (st_newq s)); zn (length (st_unused s));
    zn (st_created s); zn (st_removed s); zn (st_callbacks s); zn (length (st_destroyed s));
+   match st_inflight s with Some _ => 1%Z | None => 0%Z end;
    if all_gameplay s then 1%Z else 0%Z].
 
 Definition run (c : case) : list Z :=
